@@ -33,14 +33,15 @@ let parse_cfg cfg toks =
   | "pair" :: id :: i :: o :: inter :: op :: em :: [] ->
     { cfg with c_pairs = cfg.c_pairs @ [ (z id, { pr_id = z id; pr_in = z i; pr_out = z o; pr_inter = bool_of_tok inter;
                                                 pr_out_pool = z op; pr_emode = bool_of_tok em }) ] }
-  | "rates" :: id :: ltv :: eltv :: c :: st :: iso :: [] ->
+  | "rates" :: id :: ltv :: eltv :: c :: st :: iso :: pen :: epen :: [] ->
     { cfg with c_rates = cfg.c_rates @ [ (z id, { r_asset = z id; r_ltv = z ltv; r_eltv = z eltv; r_casset = z c;
-                                                r_stable = bool_of_tok st; r_isolated = bool_of_tok iso }) ] }
+                                                r_stable = bool_of_tok st; r_isolated = bool_of_tok iso; r_pen = z pen; r_epen = z epen }) ] }
   | "a2p" :: a :: p :: rest -> let (ids, _) = take_list rest in { cfg with c_a2p = cfg.c_a2p @ [ ((z a, z p), ids) ] }
   | "app" :: id :: b :: [] -> { cfg with c_apps = cfg.c_apps @ [ (z id, bool_of_tok b) ] }
   | _ -> failwith "bad cfg line"
 
-let empty_state = { lends = []; borrows = []; sstats = []; bnk = { bal = []; sup = [] }; lctr = BinNums.Z0; bctr = BinNums.Z0; prices = [] }
+let empty_state = { lends = []; borrows = []; sstats = []; bnk = { bal = []; sup = [] }; lctr = BinNums.Z0; bctr = BinNums.Z0; prices = [];
+                    killed = []; depr = []; v1 = [] }
 
 (* one projection line into the observed state *)
 let obs_line (st : state) toks : state =
@@ -77,6 +78,11 @@ let obs_line (st : state) toks : state =
       | _ -> failwith "pr" in
     { st with prices = go rest [] }
   | "ct" :: a :: b :: [] -> { st with lctr = z a; bctr = z b }
+  | "fl" :: rest ->
+    let (kl, rest) = take_list rest in
+    let (dp, rest) = take_list rest in
+    let (v, _) = take_list rest in
+    { st with killed = kl; depr = dp; v1 = v }
   | _ -> failwith ("bad obs line: " ^ S.concat " " toks)
 
 let ints l = S.concat "," (L.map zs l)
@@ -109,6 +115,7 @@ let lines_of (obs : state) (st : state) : (string * string) list =
   L.iter (fun (d, _) -> add (Printf.sprintf "supply[%s]" (zs d)) (zs (supply st.bnk d))) obs.bnk.sup;
   L.iter (fun (a, _) -> add (Printf.sprintf "price[%s]" (zs a)) (match zget st.prices a with Some v -> zs v | None -> "-")) obs.prices;
   add "lctr" (zs st.lctr); add "bctr" (zs st.bctr);
+  add "killed" (ints (L.sort compare st.killed)); add "depreciated" (ints st.depr); add "generation1_flagged" (ints (L.sort compare st.v1));
   L.rev !out
 
 let parse_op toks : string * op * string =
@@ -136,6 +143,18 @@ let parse_op toks : string * op * string =
     let (ipbs, rest) = take_list rest in
     ("calc", OCalc (z u, es, ipbs), L.hd rest)
   | "handover" :: b :: d :: dint :: res :: [] -> ("handover", OHandOver (z b, z d, z dint), res)
+  | "aucbid" :: b :: d :: res :: [] -> ("aucbid", OAucBid (z b, z d), res)
+  | "aucclose" :: b :: tg :: ow :: back :: res :: [] -> ("aucclose", OAucClose (z b, z tg, z ow, z back), res)
+  | "repaywithdraw" :: u :: b :: rest ->
+    let (e, rest) = take_biter rest in
+    (match rest with
+     | ipb :: res :: [] -> ("repaywithdraw", ORepayWithdraw (z u, z b, e, z ipb), res)
+     | _ -> failwith "repaywithdraw")
+  | "fundmod" :: u :: p :: a :: d :: amt :: res :: [] -> ("fundmod", OFundMod (z u, z p, z a, z d, z amt), res)
+  | "fundreserve" :: u :: a :: d :: amt :: res :: [] -> ("fundreserve", OFundReserve (z u, z a, z d, z amt), res)
+  | "kill" :: adm :: app :: on :: res :: [] -> ("kill", OKill (bool_of_tok adm, z app, bool_of_tok on), res)
+  | "depreciate" :: p :: res :: [] -> ("depreciate", ODepreciate (z p), res)
+  | "handoverv1" :: b :: d :: dint :: ta :: pen :: ded :: res :: [] -> ("handoverv1", OHandOverV1 (z b, z d, z dint, z ta, z pen, z ded), res)
   | "setprice" :: a :: "-" :: res :: [] -> ("setprice", OSetPrice (z a, None), res)
   | "setprice" :: a :: p :: res :: [] -> ("setprice", OSetPrice (z a, Some (z p)), res)
   | _ -> failwith ("bad op: " ^ S.concat " " toks)
@@ -154,6 +173,7 @@ let run (path : string) =
   let dead = ref false in               (* model and implementation diverged: stop diffing this case *)
   let interesting = ref false in
   let tainted = ref false in            (* a message of known-finding class 2 succeeded earlier in this case *)
+  let tainted4 = ref false in           (* a generation-1 hand-over (class 4) went through earlier in this case *)
   let sig_ = Buffer.create 1024 in
   let end_case () =
     if !case <> "" then begin
@@ -175,6 +195,7 @@ let run (path : string) =
   let check_props kind o res =
     let obs = !cur_obs and pre = !pre_obs in
     if res = "ok" && kf_C08_2 pre o then begin tainted := true; bump "kf_C08_2:hand_over_deletes_live_lend_record" end;
+    if res = "ok" && kf_C08_4 pre o then begin tainted4 := true; interesting := true; bump "kf_C08_4:generation1_hand_over_keeps_principal_in_totals" end;
     if kind = "handover" && res = "ok" then begin
       (match o with
        | OHandOver (j, _, _) ->
@@ -183,10 +204,38 @@ let run (path : string) =
           | _ -> ())
        | _ -> ())
     end;
+    (match o with
+     | OAucClose (j, target, _, _) when res = "ok" ->
+       interesting := true;
+       (match zget pre.borrows j with
+        | Some b0 ->
+          bump (if b0.b_brd = BinNums.Z0 then "close:same_pool" else "close:cross_pool");
+          (match zget !cfg.c_pairs b0.b_pair with Some pr when pr.pr_emode -> bump "close:emode" | _ -> ());
+          (match zget pre.lends b0.b_lend with None -> bump "close:lend_record_deleted_at_handover" | Some _ -> ())
+        | None -> ());
+       (* the auction's target debt is the one the hand-over computed *)
+       if not (holds_C08_target !cfg pre j target) then
+         predfail ~case:!case ~step:!step ~pred:"holds_C08_target" ~kf:"none" ~detail:kind;
+       (* the position is gone: not in the books, not in the published ids, not in the user mapping *)
+       if zget obs.borrows j <> None then
+         predfail ~case:!case ~step:!step ~pred:"holds_C08_closed_gone" ~kf:"none" ~detail:kind;
+       (* the close rule: the pools receive what the close books and forwards *)
+       let k3 = kf_C08_3 !cfg pre o in
+       if k3 then bump "kf_C08_3:close_books_more_than_recovered";
+       if not (holds_C08_close !cfg pre obs j) then
+         predfail ~case:!case ~step:!step ~pred:"holds_C08_close" ~kf:(if k3 then "kf_C08_3" else "none") ~detail:kind
+       else bump "close:pool_receives_what_is_booked"
+     | OAucClose (j, _, _, _) ->
+       bump ("close_failed:" ^ res);
+       (match zget pre.borrows j with
+        | Some b0 when b0.b_brd <> BinNums.Z0 && zget pre.lends b0.b_lend = None -> bump "C10-F7:cross_pool_close_stuck_lend_record_deleted"
+        | _ -> ())
+     | OAucBid (_, d) -> bump ("aucbid:" ^ zs d)
+     | _ -> ());
     if not (holds_C08_lend obs) then
-      predfail ~case:!case ~step:!step ~pred:"holds_C08_lend" ~kf:(if !tainted then "kf_C08_2" else "none") ~detail:("after_" ^ kind);
+      predfail ~case:!case ~step:!step ~pred:"holds_C08_lend" ~kf:(if !tainted then "kf_C08_2" else if !tainted4 then "kf_C08_4" else "none") ~detail:("after_" ^ kind);
     if not (holds_C08_borrow !cfg obs) then
-      predfail ~case:!case ~step:!step ~pred:"holds_C08_borrow" ~kf:"none" ~detail:("after_" ^ kind);
+      predfail ~case:!case ~step:!step ~pred:"holds_C08_borrow" ~kf:(if !tainted4 then "kf_C08_4" else "none") ~detail:("after_" ^ kind);
     if not (holds_C08_avail obs) then
       predfail ~case:!case ~step:!step ~pred:"holds_C08_avail" ~kf:"none" ~detail:("after_" ^ kind);
     (* Side invariant (C08-F1 repaired): no position hangs on a lend position of another asset than its pair's asset in *)
@@ -224,6 +273,15 @@ let run (path : string) =
        | OWithdraw (_, lid, _, amt, _) ->
          if not (holds_C08_pledged pre obs lid amt) then
            predfail ~case:!case ~step:!step ~pred:"holds_C08_pledged" ~kf:"none" ~detail:kind
+       | ORepayWithdraw (u, bid, e, _) ->
+         (* the state after the CloseBorrow half is computed from the OBSERVED pre-state; the withdrawal must take
+            exactly the released collateral out of AvailableToBorrow and leave every pledge alone *)
+         (match zget pre.borrows bid, close_borrow !cfg pre u bid e with
+          | Some b0, Base.Ok st1 ->
+            bump "repaywithdraw:pledged_checked";
+            if not (holds_C08_pledged st1 obs b0.b_lend b0.b_in) || zget obs.borrows bid <> None then
+              predfail ~case:!case ~step:!step ~pred:"holds_C08_pledged" ~kf:"none" ~detail:kind
+          | _ -> predfail ~case:!case ~step:!step ~pred:"holds_C08_pledged" ~kf:"none" ~detail:"repaywithdraw_without_close")
        | OCloseLend (_, lid, _) ->
          let amt = (match zget pre.lends lid with Some l -> l.l_avail | None -> BinNums.Z0) in
          (* a closed position must be gone and must have had nothing pledged *)
@@ -237,12 +295,14 @@ let run (path : string) =
       | "case" :: id :: _ ->
         end_case ();
         case := id; model := empty_state; pre_obs := empty_state; cur_obs := empty_state; pending := None;
-        have_init := false; step := 0; dead := false; interesting := false; tainted := false; Buffer.clear sig_
+        have_init := false; step := 0; dead := false; interesting := false; tainted := false; tainted4 := false; Buffer.clear sig_
       | "op" :: dt :: rest ->
         incr step; incr steps;
         let (kind, o, res) = parse_op rest in
         Buffer.add_string sig_ (S.concat " " rest); Buffer.add_char sig_ ';';
         bump ("op:" ^ kind ^ ":" ^ res);
+        if !cur_obs.killed <> [] then bump ("under_kill_switch:" ^ kind ^ ":" ^ res);
+        if !cur_obs.depr <> [] then bump ("with_depreciated_pool:" ^ kind ^ ":" ^ res);
         (let d = int_of_string dt in
          bump ("gap:" ^ (if d = 0 then "0" else if d < 3600 then "<1h" else if d < 86400 * 30 then "<30d" else if d < 31557600 then "<1y" else ">=1y")));
         if kind = "borrow" && res = "ok" then interesting := true;
@@ -272,7 +332,7 @@ let run (path : string) =
           (match !pending with Some (kind, o, res, _) -> check_props kind o res | None -> ());
           pending := None
         end
-      | ("st" | "ld" | "bw" | "bl" | "sp" | "pr" | "ct") :: _ as toks -> cur_obs := obs_line !cur_obs toks
+      | ("st" | "ld" | "bw" | "bl" | "sp" | "pr" | "ct" | "fl") :: _ as toks -> cur_obs := obs_line !cur_obs toks
       | _ -> ()
     ) lines;
   end_case ();
